@@ -451,6 +451,8 @@ static void t_apply(int op, int check)
         {
             uint8_t blk[16], real[16], ref[16]; int p, v, dir, step = tier_thorough() ? 16 : 64;
             if (o->type == T_TWEAK && o->a >= t_nbase && !t_prev_zero) step = 4096;   /* BYTE tweak reached from a non-zero tweak: image oracle only plus one block per position */
+            static uint8_t cb4[1024]; size_t cl = 0; int cr; const void *cs = t_sched(&cl, &cr);
+            if (cl <= sizeof(cb4)) memcpy(cb4, cs, cl); else cl = 0;
             for (dir = 0; dir < 2; ++dir) for (p = 0; p < t_bs; ++p) for (v = (p * 7) & 15; v < 256; v += step) {
                 lcg_fill(blk, 16, 400 + (uint32_t)dir); memset(blk + t_bs, 0, (size_t)(16 - t_bs)); blk[p] = (uint8_t)v;
                 t_blocks(s, dir, blk, real);
@@ -462,6 +464,7 @@ static void t_apply(int op, int check)
                     return;
                 }
             }
+            if (cl && memcmp(cb4, cs, cl) != 0) t_report("block-call-changed-schedule", op, "the schedule (a const argument) was modified by the block functions");
         }
     }
 }
